@@ -125,9 +125,46 @@ impl Seq {
             Step::RealStep { ns } => { self.h.sim.step_real(*ns); true }
             Step::Turns { n } => { for _ in 0..*n { self.h.turn(); } true }
             Step::Close { c, half } => { if let Some(i) = self.h.cl(*c) { self.h.sim.close(i, if *half { CloseHow::HalfClose } else { CloseHow::Close }); } true }
+            Step::Ctl { name, n, .. } => self.run_ctl(name, *n),
             _ => false,
         }
     }
+
+    /// Sweeper scheduling controls shared by several checks.
+    pub fn run_ctl(&mut self, name: &str, _n: i64) -> bool {
+        let inst = self.h.inst;
+        let sw = self.h.sim.instances[inst].sweeper_tid;
+        match name {
+            // take the sweeper out of eager scheduling for the rest of the run
+            "sweeper_manual" => { if !self.h.sim.bg_manual.contains(&sw) { self.h.sim.bg_manual.push(sw); } true }
+            "sweeper_eager" => { self.h.sim.bg_manual.retain(|t| *t != sw); self.h.sim.run_bg(inst); self.after_bg(); true }
+            // if the sweeper is due, run it until it has collected the expired keys of one shard
+            // (parked between its read-lock scan and its write-lock deletions) or finished the pass
+            "sweep_hold" => {
+                if self.h.sim.is_runnable(sw) {
+                    let mut guard = 0;
+                    loop {
+                        guard += 1;
+                        match self.h.sim.step(sw, M_SWEEP_COLLECTED, 0, 0) {
+                            Some(crate::world::Reason::Hook { site, .. }) if site == ferrous::verif::site::SWEEP_COLLECTED => { self.h.count("probe_sweeper_held_between_collect_and_delete", 1); break; }
+                            Some(crate::world::Reason::Sleep) | Some(crate::world::Reason::Exit) | None => break,
+                            _ => { if guard > 10_000 || !self.h.sim.is_runnable(sw) { break; } }
+                        }
+                    }
+                }
+                true
+            }
+            // let the sweeper finish whatever it is doing (to its next sleep)
+            "sweep_release" => {
+                let mut guard = 0;
+                while self.h.sim.is_runnable(sw) && guard < 100_000 { guard += 1; if self.h.sim.step(sw, 0, 0, 0).is_none() { break; } }
+                self.after_bg();
+                true
+            }
+            _ => false,
+        }
+    }
+    fn after_bg(&mut self) { if self.compare_dumps && self.h.dead.is_none() { self.compare_dump("SWEEP", "-", "-", &[]); } }
 
     fn ensure_client(&mut self, c: usize) -> usize {
         match self.h.cl(c) {
